@@ -4,16 +4,21 @@ import Driver.SValJson
 import Driver.ArrJson
 import Driver.Suites.Build
 import SaModel.Build.Finish
+import SaModel.Build.Guarded
 import SaModel.Build.Dec
 import SaModel.Spec.Interp
 import SaModel.Spec.Blame
 /-
 suite `hist` (C10): histories of push / extend / serialize-through-Serializer / build on one ArrayBuilder.
-  agree : the model state machine (push / extend / serializeWith / buildArrays + takeRest) reproduces every
+A history does NOT end at a failing operation (finding C10-use-after-failed-push): every operation yields an outcome.
+  agree : the model state machine (`Build.pushG` / `extendG` / `serializeWithG` / `buildArraysG`, SaModel/Build/Guarded.lean:
+          the builder WITH its poisoned flag — the definitions `Props/C10Fail.lean` is about) reproduces every
           operation's outcome class and every build's arrays (decoded content; physical equality is tagged);
-  spec  : C10  build k decodes to exactly interp of the rows added since build k-1, in order (a 0-row build
-               gives 0 rows), and is identical to the one-shot to_marrow of that batch;
-          C16  no panic;
+  spec  : C10  every build that SUCCEEDS decodes to exactly interp of the rows of the additions that succeeded since the
+               previous successful build, in order (a 0-row build gives 0 rows), is identical to the one-shot to_marrow
+               of that batch, and no build succeeds after an operation failed inside the builder;
+          C03  every array any build returns is a well-formed array of its field — decided on the arrays alone;
+          C16  no panic, also after a failed operation;
           C18  (API coverage) the public accessors of every error agree with its Display text (`accessorsDisagree`).
 API coverage: `ctor_used = new` means the builder came from `ArrayBuilder::new(SerdeArrowSchema)` (same model: the
 schema observably holds the given fields); `ser_owned` is `Serializer::new(builder)` by value + `into_inner()` (same
@@ -37,6 +42,13 @@ def wrapRows (as_ : String) (rows : List SVal) : SVal :=
   | "newtype_struct" => .newtypeStruct "Batch" (.seq (SVals.ofList rows))
   | "newtype_variant" => .newtypeVariant "Batch" 0 "Rows" (.seq (SVals.ofList rows))
   | "some" => .some (.seq (SVals.ofList rows))
+  | "nested" => .newtypeStruct "Outer" (.newtypeVariant "Batch" 2 "Rows" (.tuple (SVals.ofList rows)))
+  | "some_tuple" => .some (.tuple (SVals.ofList rows))
+  | "some_some" => .some (.some (.seq (SVals.ofList rows)))
+  | "newtype_variant_tuple_variant" => .newtypeVariant "Batch" 0 "Rows" (.tupleVariant "Inner" 1 "Rows" (SVals.ofList rows))
+  | "tuple_lying" => .tuple (SVals.ofList rows)
+  | "not:row" => rows.headD (.record "Batch" .nil)
+  | "not:map1" => .map (.cons (.str "a") (.int .i32 1) .nil)
   | "not:i32" => .int .i32 7
   | "not:bool" => .bool true
   | "not:str" => .str "rows"
@@ -76,11 +88,6 @@ def opName : HOp → String
   | .push _ => "push" | .extend _ _ => "extend" | .ser _ _ false => "ser" | .ser _ _ true => "ser_owned" | .build => "build"
   | .userError via _ => s!"user_error:{via}"
 
-structure St where
-  root : B
-  batch : List SVal := []          -- rows added since the last build (spec side)
-  builds : Nat := 0
-
 def decodeEq (a b : List (R LVal)) : Bool :=
   a.length == b.length && (a.zip b).all fun (x, y) =>
     match x, y with
@@ -107,8 +114,13 @@ def handle (j : Json) : Except String Verdict := do
     if implCls ctor != "ok" then
       return { agree := false, spec := [("C10", "na"), ("C16", if implCls ctor == "panic" then "fail" else "pass")], tags := tags0,
                sig := s!"hist/ctor/model=ok/impl={implCls ctor}" }
-    -- walk the history
-    let mut st : St := { root := root0 }
+    -- walk the history: EVERY operation, also after a failed one
+    let mut g : G := some root0        -- the model's builder with its poisoned flag
+    let mut batch : List SVal := []    -- spec side: rows of the additions the IMPLEMENTATION accepted since its last successful build
+    let mut dirty := false             -- spec side: an operation failed inside the implementation's builder since it was made
+    let mut diverged := false          -- model and implementation differed in an outcome class: the model is not consulted any more
+    let mut sawFailure := false
+    let mut afterFailure := 0
     let mut agree := true
     let mut c10 := "pass"
     let mut c03 := "pass"
@@ -117,12 +129,18 @@ def handle (j : Json) : Except String Verdict := do
     let mut sig := ""
     let mut why := ""
     let mut nbuilt := 0
+    let mut nbuildOps := 0
     let mut phys := true
     let mut i := 0
     for op in ops do
       let some io := impl[i]? | break
       let cls := implCls io
-      if cls == "panic" || cls == "hang" then c16 := "fail"
+      if cls == "panic" || cls == "hang" then
+        c16 := "fail"
+        if sig == "" || !sig.startsWith "hist/C16" then
+          sig := s!"hist/C16/{cls}/{opName op}/{if sawFailure then "after-failure" else "clean"}"
+          why := s!"op #{i} {opName op}: {cls}: {(io.compress.take 300)}"
+      if sawFailure then afterFailure := afterFailure + 1
       -- an error of the user's making comes back as an error carrying the user's text: `serde::ser::Error::custom` /
       -- `serde::de::Error::custom` prefix it with their trait's name, `Error::custom` / `custom_from` take it as it is
       -- (only `custom_from` has a source); the accessor check below applies as to every error; the history ends here
@@ -131,8 +149,10 @@ def handle (j : Json) : Except String Verdict := do
         let want := match via with | "ser" => "serde::ser::Error: " ++ text | "de" => "serde::de::Error: " ++ text | _ => text
         let acc := (err.getObjVal? "acc").toOption.getD Json.null
         let hasSource := match acc.getObjVal? "source" with | .ok (.str _) => true | _ => false
-        let good := cls == "err" && (acc.getObjValAs? String "message").toOption == some want && hasSource == (via == "custom_from")
-          && (via == "ser" || annOfImpl err == [])
+        -- (through `push` on a builder that an earlier failure poisoned the refusal of the builder comes first)
+        let poisonedFirst := via == "ser" && g.isNone && !diverged
+        let good := cls == "err" && (poisonedFirst || ((acc.getObjValAs? String "message").toOption == some want && hasSource == (via == "custom_from")
+          && (via == "ser" || annOfImpl err == [])))
         -- (`source`: that the cause is quoted at the end of the message is a convention of the crate's own conversions,
         -- not of `custom_from`)
         let accBad := match accessorsDisagree err with | some "source" => false | some _ => true | none => false
@@ -142,16 +162,26 @@ def handle (j : Json) : Except String Verdict := do
             sig := s!"hist/C18/user-error/{via}"
             why := s!"op #{i}: a user error {repr text} made through {via} came back as {io.compress}"
         break
-      let res : R (B × Option (List Arr)) := match op with
-        | .push row => (push ext st.root row).map (·, none)
-        | .extend v _ => (extend ext st.root v).map (·, none)
-        | .ser v _ _ => (serializeWith ext st.root v).map (·, none)
-        | .build => (buildArrays ext st.root).map fun (arrs, rest) => (rest, some arrs)
-        | .userError _ _ => .ok (st.root, none)
-      let batch' := match op with
-        | .push row => st.batch ++ [row]
-        | .extend _ rows | .ser _ rows _ => st.batch ++ rows
-        | .build | .userError _ _ => st.batch
+      -- the model: outcome and the state the operation leaves
+      let (res, g') : R (Option (List Arr)) × G := match op with
+        | .push row => let (r, g') := pushG ext g row; (r.map fun _ => none, g')
+        | .extend v _ => let (r, g') := extendG ext g v; (r.map fun _ => none, g')
+        | .ser v _ _ => let (r, g') := serializeWithG ext g v; (r.map fun _ => none, g')
+        | .build => let (r, g') := buildArraysG ext g; (r.map some, g')
+        | .userError _ _ => (.ok none, g)
+      -- `ser_owned` (harness): a failing call drops the builder with the serializer, the history goes on with a fresh one
+      let owned := match op with | .ser _ _ true => true | _ => false
+      let g' : G := if owned && !res.isOk then some root0 else g'
+      let newRows := match op with
+        | .push row => [row]
+        | .extend _ rows | .ser _ rows _ => rows
+        | .build | .userError _ _ => []
+      let isBuild := match op with | .build => true | _ => false
+      -- does a failure of this operation happen INSIDE the builder (everything but the Serializer wrapper's refusal of a
+      -- value that is not a collection: the wrapper refuses it before the builder is touched)
+      let insideBuilder := match op with
+        | .ser v _ _ => reachesBuilder v
+        | _ => true
       -- an operation that fails must fail with the same annotations in model and implementation (C18: also after
       -- builds, when the builders have been reset), and the field must be a position Spec.blame allows
       if cls == "err" then
@@ -162,7 +192,7 @@ def handle (j : Json) : Except String Verdict := do
             sig := s!"hist/C18/error-accessors/{aspect}"
             why := s!"op #{i} {opName op}: Error::message / Display / Debug disagree ({aspect}): {((io.getObjVal? "err").toOption.getD Json.null).compress}"
         | none => pure ()
-      if res.cls == "err" && cls == "err" then
+      if !diverged && res.cls == "err" && cls == "err" then
         let ia := annOfImpl ((io.getObjVal? "err").toOption.getD Json.null)
         let ma := res.ann
         if !ma.isEmpty && ia != ma then
@@ -170,10 +200,6 @@ def handle (j : Json) : Except String Verdict := do
           if sig == "" then
             sig := s!"hist/ann/{opName op}/after-builds={if nbuilt == 0 then "0" else "N"}/{(ma.lookup "data_type").getD "-"}"
             why := s!"op #{i} {opName op}: annotations: model {repr ma}, implementation {repr ia}"
-        let newRows := match op with
-          | .push row => [row]
-          | .extend _ rows | .ser _ rows _ => rows
-          | .build | .userError _ _ => []
         let firstBadRow := newRows.find? (fun r => !(interpRow ext fields r).isOk)
         match firstBadRow with
         | some row =>
@@ -185,52 +211,61 @@ def handle (j : Json) : Except String Verdict := do
                 sig := s!"hist/C18/{opName op}/after-builds={if nbuilt == 0 then "0" else "N"}"
                 why := s!"op #{i}: blamed field {repr (ia.lookup "field")} not among {repr blamed}"
         | none => pure ()
-      if res.cls != cls then
+      if !diverged && res.cls != cls then
         agree := false
+        diverged := true
         if sig == "" then
-          sig := s!"hist/{opName op}/model={res.cls}/impl={cls}"
+          sig := s!"hist/{opName op}/model={res.cls}/impl={cls}{if sawFailure then "/after-failure" else ""}"
           why := s!"op #{i} {opName op}: model {res.cls} {repr res.ann}, implementation {cls}"
-        break
-      match res with
-      | .error _ => break                       -- histories end at the first failed operation
-      | .ok (root', built) =>
-        match built with
-        | none => st := { st with root := root', batch := batch' }
-        | some marrs =>
+      -- ---- the properties, decided on what the IMPLEMENTATION returned
+      if isBuild then
+        if cls == "ok" then
           let iarrs ← (← getArr io "ok").toList.mapM arrOfJson
           let idec := iarrs.map decodeAll
-          let mdec := marrs.map decodeAll
-          if !(idec.length == mdec.length && (idec.zip mdec).all fun (a, b) => decodeEq a b) then
-            agree := false
-            if sig == "" then
-              sig := "hist/build/decoded-differs"
-              why := s!"build #{nbuilt} (op #{i}): decoded arrays differ between model and implementation"
-          if iarrs != marrs then phys := false
+          if !diverged then
+            match res with
+            | .ok (some marrs) =>
+              let mdec := marrs.map decodeAll
+              if !(idec.length == mdec.length && (idec.zip mdec).all fun (a, b) => decodeEq a b) then
+                agree := false
+                if sig == "" then
+                  sig := "hist/build/decoded-differs"
+                  why := s!"build #{nbuilt} (op #{i}): decoded arrays differ between model and implementation"
+              if iarrs != marrs then phys := false
+            | _ => pure ()
           -- C03 along histories (`Props.C10.C10_builds_wf`): every build returns well-formed arrays of the declared
-          -- fields, one per field, each with exactly the rows of its batch — also from a reused builder
+          -- fields, one per field, each with exactly the rows of its batch — also from a reused builder, also after a
+          -- failed operation
           if !fsb0 then
             let wfAll := iarrs.length == fields.length &&
-              (fields.zip iarrs).all (fun (f, a) => SaModel.Spec.WF f a && (decodeAll a).length == st.batch.length)
+              (fields.zip iarrs).all (fun (f, a) => SaModel.Spec.WF f a && (decodeAll a).length == batch.length)
             if !wfAll then
               c03 := "fail"
-              if sig == "" || sig.startsWith "hist/build/decoded" then
-                let bad := (fields.zip iarrs).findIdx? (fun (f, a) => !(SaModel.Spec.WF f a && (decodeAll a).length == st.batch.length))
-                sig := s!"hist/C03/not-wf/build{if nbuilt == 0 then "0" else "N"}/{((bad.bind (fun i => fields[i]?)).map (·.dataType.ctor)).getD "count"}"
-                why := s!"build #{nbuilt} (op #{i}) with {st.batch.length} rows returns an array that is not a well-formed array of its field"
+              if sig == "" || sig.startsWith "hist/build/decoded" || sig.startsWith "hist/build/model" then
+                let bad := (fields.zip iarrs).findIdx? (fun (f, a) => !(SaModel.Spec.WF f a && (decodeAll a).length == batch.length))
+                sig := s!"hist/C03/not-wf/build{if nbuilt == 0 then "0" else "N"}/{((bad.bind (fun i => fields[i]?)).map (·.dataType.ctor)).getD "count"}{if dirty then "/after-failure" else ""}"
+                why := s!"build #{nbuilt} (op #{i}) with {batch.length} rows returns an array that is not a well-formed array of its field"
+          -- C10: no build succeeds on a builder in which an operation failed (what the failed operation left behind is not
+          -- a collection of records anybody pushed)
+          if dirty then
+            c10 := "fail"
+            if sig == "" || sig.startsWith "hist/build" then
+              sig := s!"hist/C10/build-after-failure/build{if nbuilt == 0 then "0" else "N"}"
+              why := s!"build (op #{i}) succeeds although an earlier operation on this builder failed"
           -- C10: exactly the rows of this batch, in order
-          let interps := st.batch.map (interpRow ext fields)
-          let malformed := interps.any isMalformed || st.batch.any containsMalformed
+          let interps := batch.map (interpRow ext fields)
+          let malformed := interps.any isMalformed || batch.any containsMalformed
           if !malformed && !fsb0 then
             let rowsOk := interps.all (·.isOk)
             let colsOk := idec.length == fields.length && (List.range fields.length).all fun col =>
               match idec[col]? with
               | none => false
-              | some slots => slots.length == st.batch.length && (List.range st.batch.length).all fun r =>
+              | some slots => slots.length == batch.length && (List.range batch.length).all fun r =>
                   match interps[r]?, slots[r]? with
                   | some (.ok row), some (.ok lv) => projField row col == some lv
                   | _, _ => false
             -- identical to the one-shot conversion of the same rows
-            let sameAsOneshot := match oneshot[nbuilt]? with
+            let sameAsOneshot := match oneshot[nbuildOps]? with
               | some o => if implCls o == "ok" then
                   match (o.getObjVal? "ok").toOption.bind (fun a => a.getArr?.toOption) with
                   | some arr => (arr.toList.mapM arrOfJson).toOption == some iarrs
@@ -239,22 +274,34 @@ def handle (j : Json) : Except String Verdict := do
               | none => false
             if !(rowsOk && colsOk && sameAsOneshot) then
               c10 := "fail"
-              if sig == "" || sig.startsWith "hist/build/decoded" then
-                sig := s!"hist/C10/{if !rowsOk then "unrepresentable-row-accepted" else if !colsOk then "batch-content" else "differs-from-oneshot"}/build{if nbuilt == 0 then "0" else "N"}/rows{if st.batch.isEmpty then "0" else "+"}"
-                why := s!"build #{nbuilt} (op #{i}) with {st.batch.length} rows: rowsOk={rowsOk} colsOk={colsOk} sameAsOneshot={sameAsOneshot}"
+              if sig == "" || sig.startsWith "hist/build/decoded" || sig.startsWith "hist/build/model" then
+                sig := s!"hist/C10/{if !rowsOk then "unrepresentable-row-accepted" else if !colsOk then "batch-content" else "differs-from-oneshot"}/build{if nbuilt == 0 then "0" else "N"}/rows{if batch.isEmpty then "0" else "+"}{if dirty then "/after-failure" else ""}"
+                why := s!"build #{nbuilt} (op #{i}) with {batch.length} rows: rowsOk={rowsOk} colsOk={colsOk} sameAsOneshot={sameAsOneshot}"
           -- C10, row-count level (`Props.C10.batches`, no hypothesis on the records since repo fix eafdf15): also a batch
           -- with malformed key/value call streams holds exactly as many rows as were added, in every column
           if malformed && !fsb0 then
-            let lensOk := idec.length == fields.length && idec.all (fun slots => slots.length == st.batch.length)
+            let lensOk := idec.length == fields.length && idec.all (fun slots => slots.length == batch.length)
             if !lensOk then
               c10 := "fail"
               if sig == "" || sig.startsWith "hist/build/decoded" then
                 sig := s!"hist/C10/malformed-batch-length/build{if nbuilt == 0 then "0" else "N"}"
-                why := s!"build #{nbuilt} (op #{i}) with {st.batch.length} rows (malformed call streams among them): column lengths {repr (idec.map (·.length))}"
+                why := s!"build #{nbuilt} (op #{i}) with {batch.length} rows (malformed call streams among them): column lengths {repr (idec.map (·.length))}"
           nbuilt := nbuilt + 1
-          st := { root := root', batch := [], builds := st.builds + 1 }
+          batch := []
+        nbuildOps := nbuildOps + 1
+      else if cls == "ok" then
+        batch := batch ++ newRows
+      if cls != "ok" then
+        sawFailure := true
+        if insideBuilder then dirty := true
+        if owned then
+          -- the harness continues with a fresh builder
+          dirty := false
+          batch := []
+      g := g'
       i := i + 1
-    let tags := tags0 ++ [s!"builds:{nbuilt}", if phys then "phys-eq" else "phys-diff"]
+    let tags := tags0 ++ [s!"builds:{nbuilt}", if phys then "phys-eq" else "phys-diff"] ++
+      (if sawFailure then [s!"ops-after-failure:{if afterFailure == 0 then "0" else "+"}"] else ["no-failure"])
     let tags := if nbuilt == 0 then "trivial" :: tags else tags
     return { agree := agree, spec := [("C10", c10), ("C03", c03), ("C16", c16), ("C18", c18)], tags := tags, sig := sig, why := why }
 
